@@ -812,7 +812,7 @@ class _FastUnmarshaller:
             if PYTHON3:
                 c = chr(c)
             self.bufpos += 1
-            return _load_dispatch[c](self)
+            return self.dispatch[c](self)
         except KeyError:
             exception = ValueError(
                 "bad marshal code at position %d: %c" % (self.bufpos - 1, c)
